@@ -167,7 +167,7 @@ static std::pair<std::string, std::string> check_public(const std::string &t, bo
 
 static void public_route() {
     // targets without whitespace/control bytes (the request line is split at whitespace)
-    int cases = A.thorough() ? 60000 : 6000;
+    int cases = A.thorough() ? 120000 : 18000;
     static const std::string atoms[] = {"a", "b", ":", "/", "//", "@", "?", "#", "[", "]", ".", "0", "80", "65535", "65536", "http", "[::1]", "x=1", "%41"};
     rcx::run("uri_public_route", vc::mix(A.seed * 77 + A.shard), cases, 100, [&]() -> std::optional<rcx::Fail> {
         int n = rcx::range(1, 8); std::string t; for (int i = 0; i < n; i++) t += atoms[rcx::range(0, 18)];
@@ -207,7 +207,7 @@ static void port_values() {
 }
 
 static void random_bytes() {
-    int cases = A.thorough() ? 400000 : 40000;
+    int cases = A.thorough() ? 800000 : 120000;
     static const std::string special = ":/@?#[]. \t%";
     rcx::run("uri_random", vc::mix(A.seed * 91 + A.shard), cases, 100, [&]() -> std::optional<rcx::Fail> {
         int n = rcx::sized(0, 48); std::string t;
